@@ -20,12 +20,15 @@ import (
 
 type vlfIn struct {
 	Alphabet [][]string `json:"alphabet"`
-	Lines    []int      `json:"lines"`
+	Lines    []int      `json:"lines"` // a file as indices into the alphabet ...
+	Toks     [][]string `json:"toks"`  // ... or (long-section family) as token lines
 }
 
 type vlfRec struct {
 	ID        int        `json:"id"`
 	Lines     []int      `json:"lines"`
+	Long      bool       `json:"long"`
+	Toks      [][]string `json:"toks"`
 	LintOk    bool       `json:"lintOk"`
 	Err       string     `json:"err,omitempty"`
 	After     [][]string `json:"after"`
@@ -61,15 +64,15 @@ func vlfTokens(text string) [][]string {
 	return out
 }
 
-func vlfText(alphabet [][]string, lines []int, ws string) string {
+func vlfText(lines [][]string, ws string) string {
 	var b strings.Builder
 
-	for n, idx := range lines {
+	for n, toks := range lines {
 		if n > 0 {
 			b.WriteString("\n")
 		}
 
-		for _, t := range alphabet[idx-1] {
+		for _, t := range toks {
 			switch t {
 			case "S":
 				b.WriteString(ws)
@@ -105,7 +108,7 @@ func TestVerifLangFileLint(t *testing.T) {
 
 	var (
 		alphabet [][]string
-		files    [][]int
+		files    []vlfIn
 	)
 
 	sc := bufio.NewScanner(f)
@@ -124,7 +127,7 @@ func TestVerifLangFileLint(t *testing.T) {
 		if rec.Alphabet != nil {
 			alphabet = rec.Alphabet
 		} else {
-			files = append(files, rec.Lines)
+			files = append(files, rec)
 		}
 	}
 
@@ -157,8 +160,23 @@ func TestVerifLangFileLint(t *testing.T) {
 			path := filepath.Join(wdir, "messages_xx.txt")
 
 			for id := w; id < len(files); id += workers {
-				text := vlfText(alphabet, files[id], ws)
-				rec := vlfRec{ID: id + 1, Lines: files[id], TextIn: text, Dups: [][]int{}}
+				rec := vlfRec{ID: id + 1, Lines: files[id].Lines, Toks: files[id].Toks, Dups: [][]int{}}
+				lines := files[id].Toks
+
+				if lines == nil {
+					rec.Toks = [][]string{}
+					lines = make([][]string, len(rec.Lines))
+
+					for n, idx := range rec.Lines {
+						lines[n] = alphabet[idx-1]
+					}
+				} else {
+					rec.Long = true
+					rec.Lines = []int{}
+				}
+
+				text := vlfText(lines, ws)
+				rec.TextIn = text
 
 				if err := os.WriteFile(path, []byte(text), 0o644); err != nil {
 					t.Error(err)
